@@ -489,9 +489,9 @@ fn histories(ctx: &Ctx, rep: &mut Report) {
                 let wire = Packet::from_bytes(&rq.message.to_bytes().unwrap()).unwrap();
                 (
                     rq.message.get_content_format().map(|c| usize::from(c) as u16),
-                    rq.message.get_first_option(CoapOption::ContentFormat).cloned(),
+                    rq.message.get_option(CoapOption::ContentFormat).map(|l| l.iter().cloned().collect::<Vec<Vec<u8>>>()),
                     rq.get_observe_flag().map(|r| r.ok().map(|f| f == ObserveOption::Register)),
-                    rq.message.get_first_option(CoapOption::Observe).cloned(),
+                    rq.message.get_option(CoapOption::Observe).map(|l| l.iter().cloned().collect::<Vec<Vec<u8>>>()),
                     rq.get_path(),
                     rq.get_path_as_vec().ok(),
                     format!("{:?}", rq.get_method()),
@@ -508,18 +508,20 @@ fn histories(ctx: &Ctx, rep: &mut Report) {
                     let mut bad: Option<(String, String)> = None;
                     if let Some(H::SetCf(id)) = last(&|h| matches!(h, H::SetCf(_) | H::RawCf(_) | H::ClearAll)) {
                         let enc = refmodel::uint::enc(*id as u128);
-                        let wire_first = wire.options.iter().find(|o| o.0 == 12).map(|o| o.1.clone());
-                        if cf != Some(*id) || cf_raw.as_ref() != Some(&enc) || wire_first.as_ref() != Some(&enc) {
+                        // the setter stores ONE value: the raw list and the encoded message show exactly that one,
+                        // whatever was there before (nothing stale in front of it or behind it)
+                        let wire_all: Vec<Vec<u8>> = wire.options.iter().filter(|o| o.0 == 12).map(|o| o.1.clone()).collect();
+                        if cf != Some(*id) || cf_raw.as_ref() != Some(&vec![enc.clone()]) || wire_all != vec![enc.clone()] {
                             bad = Some((
                                 "C19/content-format-setter-not-what-views-show".into(),
-                                format!("last set_content_format({}): getter {:?}, first raw value {:?}, first encoded value {:?}", id, cf, cf_raw.map(|v| hex(&v)), wire_first.map(|v| hex(&v))),
+                                format!("last set_content_format({}): getter {:?}, raw values {:?}, encoded values {:?}", id, cf, cf_raw.map(|l| l.iter().map(|v| hex(v)).collect::<Vec<_>>()), wire_all.iter().map(|v| hex(v)).collect::<Vec<_>>()),
                             ));
                         }
                     }
                     if let Some(H::SetObs(rg)) = last(&|h| matches!(h, H::SetObs(_) | H::RawObs(_) | H::ClearAll)) {
                         let enc = refmodel::uint::enc(if *rg { 0 } else { 1 });
-                        let wire_first = wire.options.iter().find(|o| o.0 == 6).map(|o| o.1.clone());
-                        if obs != Some(Some(*rg)) || obs_raw.as_ref() != Some(&enc) || wire_first.as_ref() != Some(&enc) {
+                        let wire_all: Vec<Vec<u8>> = wire.options.iter().filter(|o| o.0 == 6).map(|o| o.1.clone()).collect();
+                        if obs != Some(Some(*rg)) || obs_raw.as_ref() != Some(&vec![enc.clone()]) || wire_all != vec![enc.clone()] {
                             bad = Some(("C19/observe-setter-not-what-views-show".into(), format!("last set_observe_flag(register={}): getter {:?}, raw {:?}", rg, obs, obs_raw)));
                         }
                     }
